@@ -14,7 +14,43 @@ import (
 	"github.com/ldclabs/cose/key"
 )
 
-func init() { streams["msg"] = streamMsg }
+func init() {
+	streams["msg"] = streamMsg
+	streams["c08probe"] = streamC08Probe
+	streams["msgparts"] = func(c *ctx) {
+		c.beginCases("From Cose Require Import Lib.Cbor Model.GoVal Model.Key Model.Msg Model.MsgWireCorr.", "msg_case", "check_msg_case")
+		c.maxCases = 120
+		streamMsgParts(c)
+	}
+}
+
+// after a failed Decrypt the message object holds no plaintext
+func checkNoPlaintext(c *ctx, kind string, f fkey, data, ext []byte, line string) {
+	var payload []byte
+	var derr error
+	switch kind {
+	case "KEnc0":
+		m := &cose.Encrypt0Message[[]byte]{}
+		if m.UnmarshalCBOR(data) != nil {
+			return
+		}
+		derr = m.Decrypt(f, ext)
+		payload = m.Payload
+	case "KEnc":
+		m := &cose.EncryptMessage[[]byte]{}
+		if m.UnmarshalCBOR(data) != nil {
+			return
+		}
+		derr = m.Decrypt(f, ext)
+		payload = m.Payload
+	default:
+		return
+	}
+	c.eval()
+	if derr != nil && payload != nil {
+		c.fail(failure{Op: "decrypt", What: "plaintext left in the message after a failed Decrypt", Input: line, Observed: fmt.Sprintf("Payload=%x err=%v", payload, derr), Expected: "nil Payload", Case: line})
+	}
+}
 
 // Transparent fake primitives: signature / tag = secret || data; ciphertext = secret || len(nonce) || nonce ||
 // be32 len(aad) || aad || plaintext. The Coq side (Model/MsgWireCorr.v) computes the same functions, so the
@@ -71,8 +107,17 @@ func (f fkey) Decrypt(nonce, ciphertext, aad []byte) ([]byte, error) {
 
 // ---- generators
 
-func genLabel(c *ctx) any {
-	switch c.r.intn(8) {
+func genLabel(c *ctx, variants bool) any {
+	n := 8
+	if variants {
+		n = 10
+	}
+	switch c.r.intn(n) {
+	case 8: // other Go integer types: int64 / uint64 / uint are normalised, the narrow ones are refused
+		v := 1 + c.r.intn(9)
+		return pick(c.r, []any{int64(v), uint64(v), uint(v), int64(-v), int8(v), uint16(v), int32(v), int64(1) << 31, uint64(1) << 31})
+	case 9: // the same small labels again, so that collisions after normalisation happen
+		return 1 + c.r.intn(9)
 	case 0:
 		return pick(c.r, []string{"", "a", "b", "aa", "text-label", "z", "é"})
 	case 1:
@@ -114,7 +159,7 @@ func genHeaderValue(c *ctx, depth int) any {
 		if depth <= 0 {
 			return map[any]any{}
 		}
-		return map[any]any(genHeaders(c, depth-1, c.r.intn(4)))
+		return map[any]any(genHeadersAt(c, depth-1, c.r.intn(4), false))
 	case 8:
 		return nil
 	case 9:
@@ -124,10 +169,14 @@ func genHeaderValue(c *ctx, depth int) any {
 	}
 }
 
-func genHeaders(c *ctx, depth, n int) cose.Headers {
+func genHeaders(c *ctx, depth, n int) cose.Headers { return genHeadersAt(c, depth, n, true) }
+
+// top-level header maps also use labels of other Go integer types (CoseMap.MarshalCBOR normalises or refuses them);
+// nested map values keep plain int / string labels: a nested map[any]any goes to the CBOR library as it is (finding F17)
+func genHeadersAt(c *ctx, depth, n int, variants bool) cose.Headers {
 	h := cose.Headers{}
 	for i := 0; i < n; i++ {
-		h[genLabel(c)] = genHeaderValue(c, depth)
+		h[genLabel(c, variants)] = genHeaderValue(c, depth)
 	}
 	return h
 }
@@ -153,7 +202,8 @@ func genPayload(c *ctx) (any, string, string) { // value, coq `pay`, kind
 		seed := c.r.next()
 		b := genBytes(seed, n)
 		if n >= 64 {
-			hexSub, hexSubTerm = b, qGen(seed, n)
+			hexSub, hexSubTerm, hexSubDef = b, "BIGP", qGen(seed, n)
+			return b, "(PBytes BIGP)", "bytes"
 		}
 		return b, fmt.Sprintf("(PBytes %s)", qGen(seed, n)), "bytes"
 	case 3:
@@ -431,6 +481,15 @@ func short(s string) string {
 }
 
 // mutations of an encoding: the malformations C08 lists and the tampering C02 / C03 quantify over
+// mpos picks the position of a mutation; in a very long encoding (large payload) it stays in the head, so that the
+// case files can still name the payload by its generator term
+func mpos(c *ctx, n int) int {
+	if n > 4000 {
+		return c.r.intn(48)
+	}
+	return c.r.intn(n)
+}
+
 func mutate(c *ctx, data []byte) ([]byte, string) {
 	d := append([]byte{}, data...)
 	if len(d) == 0 {
@@ -438,15 +497,18 @@ func mutate(c *ctx, data []byte) ([]byte, string) {
 	}
 	switch c.r.intn(12) {
 	case 0:
-		pos := c.r.intn(len(d))
+		pos := mpos(c, len(d))
 		d[pos] ^= 1 << uint(c.r.intn(8))
 		return d, "bitflip"
 	case 1:
+		if len(d) > 4000 {
+			return d[:len(d)-1-c.r.intn(3)], "truncate"
+		}
 		return d[:c.r.intn(len(d))], "truncate"
 	case 2:
 		return append(d, byte(c.r.intn(256))), "trailing"
 	case 3:
-		pos := c.r.intn(len(d))
+		pos := mpos(c, len(d))
 		d[pos] = d[pos]&0xe0 | 31
 		return d, "indefinite"
 	case 4: // wrong arity: change the array head after the tag
@@ -459,7 +521,7 @@ func mutate(c *ctx, data []byte) ([]byte, string) {
 		return d, "arity"
 	case 5: // splice: duplicate a span somewhere else
 		if len(d) > 6 {
-			a, b := c.r.intn(len(d)-3), c.r.intn(len(d)-3)
+			a, b := mpos(c, len(d)-3), mpos(c, len(d)-3)
 			copy(d[a:a+3], data[b:b+3])
 		}
 		return d, "splice"
@@ -470,13 +532,13 @@ func mutate(c *ctx, data []byte) ([]byte, string) {
 	case 8: // some other tag in front
 		return append([]byte{0xc0 | byte(c.r.intn(24))}, d...), "other-tag"
 	case 9: // replace a byte by null
-		d[c.r.intn(len(d))] = 0xf6
+		d[mpos(c, len(d))] = 0xf6
 		return d, "null"
 	case 10: // replace one byte arbitrarily
-		d[c.r.intn(len(d))] = byte(c.r.intn(256))
+		d[mpos(c, len(d))] = byte(c.r.intn(256))
 		return d, "byte"
 	default: // drop one byte
-		pos := c.r.intn(len(d))
+		pos := mpos(c, len(d))
 		return append(d[:pos], d[pos+1:]...), "drop"
 	}
 }
@@ -583,6 +645,9 @@ func streamMsg(c *ctx) {
 			return
 		}
 		c.addCase(fmt.Sprintf("MCons %s %s %s %s %s %s", kind, qB(ptype == "any"), f.coq(), qHex(data), extT, term), line+fmt.Sprintf(" => ok=%v", err == nil))
+		if err != nil {
+			checkNoPlaintext(c, kind, f, data, ext, line)
+		}
 		c.nontriv(fmt.Sprintf("consume|%s|%s|%v", kind, tag, err == nil))
 		c.count(fmt.Sprintf("consume %s %s ok=%v", kind, tag, err == nil))
 	}
@@ -881,6 +946,55 @@ func qKdf(k cose.KDFContext) string {
 		qU(uint64(k.SuppPubInfo.KeyDataLength)), qOptMap(k.SuppPubInfo.Protected), qOptB(k.SuppPubInfo.Other), qOptB(k.SuppPrivInfo))
 }
 
+
+// probes for the member-type and nested-label rules of C08 (findings F16, F17 are reported from here)
+func streamC08Probe(c *ctx) {
+	c.beginCases("From Cose Require Import Lib.Cbor Model.GoVal Model.Key Model.Msg Model.MsgWireCorr.", "msg_case", "check_msg_case")
+	for i := 0; i < 12; i++ {
+		// a nested map value holding one label under two Go integer types (finding F17)
+		if i == 0 {
+			nested := cose.Headers{7: map[any]any{int(1): 1, int64(1): 2}}
+			nb, nerr := nested.Bytes()
+			c.eval()
+			if nerr == nil {
+				if _, derr := cose.HeadersFromBytes(nb); derr != nil {
+					c.fail(failure{Op: "nested-map-labels", What: "a nested map value with one label under two integer types is encoded with duplicate keys", Input: describe(nested),
+						Observed: fmt.Sprintf("%x, own decoder: %v", nb, derr), Expected: "an error from MarshalCBOR, or one entry", Case: "nested-map-labels"})
+				}
+			}
+		}
+		// members of a wrong type: a COSE_Mac0 whose payload member is not a byte string
+		if i < 12 {
+			f := fkey{k: key.Key{iana.KeyParameterKty: 4}, secret: []byte{0x51}, nsize: 12}
+			content := []byte{1, 2, 3}
+			wrong := []*citem{
+				{kind: 4, l: []*citem{{kind: 0, n: 1}, {kind: 0, n: 2}, {kind: 0, n: 3}}}, // array of small integers (F16)
+				{kind: 3, b: content}, {kind: 0, n: 7}, {kind: 5}, {kind: 7, n: 21}, {kind: 8, ai: 27, n: 0x3ff0000000000000},
+				{kind: 4, l: []*citem{{kind: 0, n: 256}}}, {kind: 4, l: []*citem{{kind: 3, b: []byte("a")}}}, {kind: 6, n: 24, v: &citem{kind: 2, b: content}},
+				{kind: 1, n: 0}, {kind: 4, l: []*citem{{kind: 1, n: 0}}}, {kind: 6, n: 2, v: &citem{kind: 2, b: content}},
+			}[i]
+			tbm := key.MustMarshalCBOR([]any{"MAC0", []byte{}, []byte{}, content})
+			tag := append([]byte{0x51}, tbm...)
+			msg := &citem{kind: 4, l: []*citem{{kind: 2, b: []byte{}}, {kind: 5}, wrong, {kind: 2, b: tag}}}
+			d := msg.enc(nil)
+			_, verr := cose.VerifyMac0Message[[]byte](f, d, nil)
+			c.eval()
+			c.addCase(fmt.Sprintf("MCons KMac0 false %s %s None %s", f.coq(), qHex(d), func() string {
+				t, _ := consume1[[]byte]("KMac0", f, d, nil)
+				return t
+			}()), short(fmt.Sprintf("consume|KMac0|wrong-typed-payload-%d|%x => ok=%v", i, d, verr == nil)))
+			// a tag in front of a byte string does not change its type: 8 and 11 are accepted by design of the CBOR library
+			if verr == nil && i != 8 && i != 11 {
+				what := "a member of a wrong type is accepted"
+				if i == 0 {
+					what = "a byte-string member given as an array of small integers is accepted"
+				}
+				c.fail(failure{Op: "wrong-typed-member", What: what, Input: fmt.Sprintf("COSE_Mac0 %x", d), Observed: "verified", Expected: "an error", Case: fmt.Sprintf("wrong-typed-payload-%d", i)})
+			}
+		}
+	}
+}
+
 // recipients, KDF contexts and header maps on their own
 func streamMsgParts(c *ctx) {
 	optBytes := func() []byte {
@@ -976,6 +1090,36 @@ func streamMsgParts(c *ctx) {
 			c.count(fmt.Sprintf("hdr-dec %s ok=%v", tag, derr == nil))
 		}
 		if herr == nil {
+			// determinism: the same labels and values under other Go integer types, inserted in another order
+			for rep := 0; rep < 3; rep++ {
+				h2 := cose.Headers{}
+				for k, v := range h {
+					if ki, ok := k.(int); ok && rep > 0 {
+						if ki >= 0 && rep == 2 {
+							k = uint64(ki)
+						} else {
+							k = int64(ki)
+						}
+					}
+					if vi, ok := v.(int); ok && rep > 0 {
+						v = int64(vi)
+					}
+					if _, dup := h2[k]; dup {
+						h2 = nil
+						break
+					}
+					h2[k] = v
+				}
+				if h2 == nil {
+					continue
+				}
+				hb2, herr2 := h2.Bytes()
+				c.eval()
+				if herr2 != nil || !bytes.Equal(hb2, hb) {
+					c.fail(failure{Op: "headers", What: "equal header maps encoded differently (Go integer type / insertion order)", Input: fmt.Sprintf("%s vs %s", describe(h), describe(h2)),
+						Observed: fmt.Sprintf("%x err=%v", hb2, herr2), Expected: fmt.Sprintf("%x", hb), Case: "headers-determinism"})
+				}
+			}
 			hdec(hb, "produced")
 			m, tag := mutate(c, hb)
 			hdec(m, tag)
